@@ -127,6 +127,12 @@ fn main() {
             let lines = read_lines(a.input.as_ref().unwrap());
             checks::api::child(&lines, opt("origins").and_then(|s| s.parse().ok()).unwrap_or(6), opt("args").and_then(|s| s.parse().ok()).unwrap_or(4));
         }
+        "replay-api-history" => {
+            let hist = read_lines(a.input.as_ref().unwrap());
+            let origins = read_lines(&opt("origins").expect("--opt origins=FILE"));
+            let s = checks::apihist::run(&hist, &origins, opt("max").and_then(|s| s.parse().ok()).unwrap_or(200), &opt("trace").expect("--opt trace=FILE"));
+            write_summary(&a, &s);
+        }
         "record-api" => {
             let lines = read_lines(a.input.as_ref().unwrap());
             let o = checks::api::ApiOpts {
